@@ -202,7 +202,7 @@ def _cases(rng: random.Random, tier: str):
     #     above, a bidirected chain of 3-5 colliders, a fully conditioned district; the oracle enumerates every subset, so the
     #     graphs stay <= 8 nodes (9-10 with a small limit)
     k = 0
-    while k < (220 if tier == "quick" else 2400):
+    while k < (220 if tier == "quick" else 1200):
         g, _, _, _, shape = structured_query(rng, only=("deep_path", "long_fork", "bidirected_chain", "married_parents", "sparse_big"))
         n = len(G.all_nodes(g))
         if n > 10 or (n > 7 and rng.random() < 0.75) or (n > 6 and tier == "quick" and rng.random() < 0.4):
@@ -212,12 +212,12 @@ def _cases(rng: random.Random, tier: str):
                                     "shape": shape.split(":")[0]}, 0.06, 0.06))
         k += 1
     # (b) minimum separators of size 3..6, unique or one of 2^r: limits just below, at and above the size, or none
-    for _ in range(64 if tier == "quick" else 800):
+    for _ in range(64 if tier == "quick" else 300):
         g, m = parallel_routes(rng)
         out.append(with_names(rng, {"kind": "ci", "g": g, "k": rng.choice([m - 1, m, m, m + 1, None, None]), "policy": pol(),
                                     "all": rng.random() < (0.6 if m <= 4 else 0.3), "shape": "parallel_routes"}, 0.06, 0.06))
     # (c) disconnected graphs
-    for _ in range(120 if tier == "quick" else 800):
+    for _ in range(120 if tier == "quick" else 500):
         out.append(with_names(rng, {"kind": "ci", "g": disconnected_graph(rng), "k": rng.choice([None, None, 0, 1, 2]),
                                     "policy": pol(), "all": rng.random() < 0.35, "shape": "disconnected"}, 0.06, 0.06))
     for _ in range(150 if tier == "quick" else 900):     # the retention policies have to choose between sets of different sizes
